@@ -156,7 +156,7 @@ def partitions(tier, seed):
         import itertools
         fixed_names, sym_names = NAMES[0:6], NAMES[6:13]
         for bits in itertools.product((False, True), repeat=6):
-            p = _presence_part('presence_' + ''.join('1' if b else '0' for b in bits), sym_names, False, 900)
+            p = _presence_part('presence_' + ''.join('1' if b else '0' for b in bits), sym_names, False, 480)
             # pin the fixed ones
             body = p.body
             for n, b in zip(fixed_names, bits):
@@ -167,9 +167,9 @@ def partitions(tier, seed):
     for prop, wtype in spec.PROPERTIES:
         if prop == 'cluster_id':
             continue
-        parts.append(_value_part(prop, wtype, 1 if q else 3, 200 if q else 900))
+        parts.append(_value_part(prop, wtype, 1 if q else 3, 200 if q else 480))
         if not q or prop in ('headers', 'priority', 'timestamp', 'delivery_mode'):
-            parts.append(_value_part(prop, wtype, 1 if q else 2, 200 if q else 900, neighbours=True))
+            parts.append(_value_part(prop, wtype, 1 if q else 2, 200 if q else 480, neighbours=True))
     parts.append(Part(name='empty_and_falsy', params=[('ch', 'int'), ('size', 'int')],
                       pre=['0 <= ch <= 65535', '0 <= size < 2**64'],
                       body='def body(ch, size):\n'
